@@ -240,4 +240,22 @@ Section Pop.
              end
     | _ => Err OutOfTape
     end.
+
+  (* ---------- DownhillSimplexOptimizer.iterate ----------
+     every branch (reflection, expansion, contraction, shrink) computes a float vector from the simplex (oracle `xs`), converts it
+     with conv2pos, returns it when feasible and otherwise the move_climb neighbour *)
+  Definition vec_iterate (xs : list xreal) (t : tape) : res (pos * tape * Z) :=
+    do r <- conv2pos sp cons fuel xs t 0; let '(p, t1, c) := r in or_climb p t1 c.
+
+  (* ---------- PowellsMethod.iterate / DirectAlgorithm.iterate ----------
+     the candidate (a point of the inner line search / the centre of a sub-space: an oracle position, checked in-box by the
+     correspondence unit) is returned when feasible, otherwise replaced by move_climb; Powell's iterate is wrapped in random_iteration *)
+  Definition cand_iterate (cand : pos) (t : tape) : res (pos * tape * Z) := or_climb cand t 0.
+  Definition powell_iterate (cand : pos) (t : tape) : res (pos * tape * Z) := rand_iter t 0 (fun t1 => or_climb cand t1 0).
+  Fixpoint in_box_b (s : space) (p : pos) : bool :=
+    match s, p with
+    | [], [] => true
+    | dim :: s', z :: p' => (0 <=? z) && (z <? zlen dim) && in_box_b s' p'
+    | _, _ => false
+    end.
 End Pop.
